@@ -5,9 +5,13 @@ package tools
 //vcheck:stub import: file system = the real lni/vfs strict in-memory FS; log store = recording raftio.ILogDB supplied through NodeHostConfig.Expert.LogDBFactory
 
 import (
-	pb "github.com/lni/dragonboat/v4/raftpb"
 	"github.com/lni/dragonboat/v4/config"
+	"github.com/lni/dragonboat/v4/internal/fileutil"
+	"github.com/lni/dragonboat/v4/internal/rsm"
+	"github.com/lni/dragonboat/v4/internal/server"
 	"github.com/lni/dragonboat/v4/internal/vfs"
+	"github.com/lni/dragonboat/v4/raftio"
+	pb "github.com/lni/dragonboat/v4/raftpb"
 )
 
 var vAddrs = []string{"a1", "a2", "a3", "a4", "a5"}
@@ -115,4 +119,193 @@ func VHarness_C20_MemberValidation() {
 	vAssert(ss.Filepath == "/final/snapshot-0000000000000064.gbsnap" && ss.Files[0].Filepath == "/final/external-file-1", "paths-re-rooted")
 	vAssert(ss.FileSize == 99 && len(ss.Checksum) == 4, "file-size-and-checksum-kept")
 	vReach("done")
+}
+
+// ---------------------------------------------------------------------------
+// whole ImportSnapshot over the in-memory FS with a recording log store
+
+type vLogDBFactory struct{ db *vImportLogDB }
+
+func (f *vLogDBFactory) Create(config.NodeHostConfig, config.LogDBCallback, []string, []string) (raftio.ILogDB, error) {
+	return f.db, nil
+}
+func (f *vLogDBFactory) Name() string { return "vlogdb" }
+
+type vImportLogDB struct {
+	imported []pb.Snapshot
+	replica  []uint64
+	closed   bool
+}
+
+func (l *vImportLogDB) Name() string                                 { return "vlogdb" }
+func (l *vImportLogDB) Close() error                                 { l.closed = true; return nil }
+func (l *vImportLogDB) BinaryFormat() uint32                         { return raftio.PlainLogDBBinVersion }
+func (l *vImportLogDB) ListNodeInfo() ([]raftio.NodeInfo, error)     { return nil, nil }
+func (l *vImportLogDB) SaveBootstrapInfo(uint64, uint64, pb.Bootstrap) error { return nil }
+func (l *vImportLogDB) GetBootstrapInfo(uint64, uint64) (pb.Bootstrap, error) {
+	return pb.Bootstrap{}, raftio.ErrNoBootstrapInfo
+}
+func (l *vImportLogDB) SaveRaftState([]pb.Update, uint64) error { return nil }
+func (l *vImportLogDB) IterateEntries([]pb.Entry, uint64, uint64, uint64, uint64, uint64, uint64) ([]pb.Entry, uint64, error) {
+	return nil, 0, nil
+}
+func (l *vImportLogDB) ReadRaftState(uint64, uint64, uint64) (raftio.RaftState, error) {
+	return raftio.RaftState{}, raftio.ErrNoSavedLog
+}
+func (l *vImportLogDB) RemoveEntriesTo(uint64, uint64, uint64) error { return nil }
+func (l *vImportLogDB) CompactEntriesTo(uint64, uint64, uint64) (<-chan struct{}, error) {
+	return nil, nil
+}
+func (l *vImportLogDB) SaveSnapshots([]pb.Update) error                       { return nil }
+func (l *vImportLogDB) GetSnapshot(uint64, uint64) (pb.Snapshot, error)       { return pb.Snapshot{}, nil }
+func (l *vImportLogDB) RemoveNodeData(uint64, uint64) error                   { return nil }
+func (l *vImportLogDB) ImportSnapshot(ss pb.Snapshot, replicaID uint64) error {
+	l.imported = append(l.imported, ss)
+	l.replica = append(l.replica, replicaID)
+	return nil
+}
+
+func vExport(fs vfs.IFS, dir string, old pb.Membership, payload []byte) pb.Snapshot {
+	if err := fs.MkdirAll(dir, 0755); err != nil {
+		panic(err)
+	}
+	fp := fs.PathJoin(dir, "snapshot-0000000000000064.gbsnap")
+	w, err := rsm.NewSnapshotWriter(fp, pb.NoCompression, fs)
+	if err != nil {
+		panic(err)
+	}
+	if _, err := w.Write(payload); err != nil {
+		panic(err)
+	}
+	if err := w.Close(); err != nil {
+		panic(err)
+	}
+	st, _ := fs.Stat(fp)
+	ss := pb.Snapshot{Filepath: fp, FileSize: uint64(st.Size()), Index: 100, Term: 5, Membership: old, ShardID: 7,
+		Checksum: w.GetPayloadChecksum(), Type: pb.RegularStateMachine}
+	if err := fileutil.CreateFlagFile(dir, server.MetadataFilename, &ss, fs); err != nil {
+		panic(err)
+	}
+	return ss
+}
+
+// C20: ImportSnapshot end to end on one host: a valid request finalizes the
+// image and records exactly the given membership in the log store; a refused
+// request (bad member list, importing replica not listed at its address,
+// checksum mismatch, missing file) leaves existing snapshot data untouched.
+//vcheck: reach=imported,refused,existing-kept,done workers=8
+func VHarness_C20_ImportEndToEnd() {
+	fs := vfs.NewMemFS()
+	old := pb.Membership{Addresses: map[uint64]string{1: "a1", 2: "a2"}, NonVotings: map[uint64]string{}, Witnesses: map[uint64]string{3: "a3"}, Removed: map[uint64]bool{4: true}}
+	vExport(fs, "/export", old, []byte{1, 2, 3})
+	db := &vImportLogDB{}
+	nh := config.NodeHostConfig{NodeHostDir: "/nh", RaftAddress: "a1", RTTMillisecond: 100, DeploymentID: 9}
+	nh.Expert.FS = fs
+	nh.Expert.LogDBFactory = &vLogDBFactory{db: db}
+	members := map[uint64]string{1: "a1"}
+	switch vChoose("request", 5) {
+	case 0: // valid: keep replica 1, drop the others
+	case 1: // re-admit a removed replica
+		members[4] = "a4"
+	case 2: // change the address of a voter
+		members[2] = "a9"
+	case 3: // turn the witness into a voter
+		members[3] = "a3"
+	case 4: // importing replica listed at somebody else's address
+		members[1] = "a2"
+	}
+	valid := len(members) == 1 && members[1] == "a1"
+	// existing data of the replica on this host: an earlier, valid import of an older image
+	haveExisting := vBool("existingData")
+	var before []string
+	if haveExisting {
+		oldMembers := map[uint64]string{1: "a1", 2: "a2"}
+		ss0 := vExport(fs, "/export0", old, []byte{9})
+		_ = ss0
+		vAssert(ImportSnapshot(nh, "/export0", oldMembers, 1) == nil, "first-import-ok")
+		db.imported, db.replica = nil, nil
+		before = vTree(fs, "/nh")
+	}
+	switch vChoose("damage", 3) {
+	case 1: // the recorded checksum does not match the file
+		vAssume(valid)
+		valid = false
+		vCorruptRecord(fs, "/export")
+	case 2: // the snapshot file is missing
+		vAssume(valid)
+		valid = false
+		if err := fs.Remove("/export/snapshot-0000000000000064.gbsnap"); err != nil {
+			panic(err)
+		}
+	}
+	err := ImportSnapshot(nh, "/export", members, 1)
+	if valid {
+		vReach("imported")
+		vAssert(err == nil, "valid-import-succeeds")
+		vAssert(len(db.imported) == 1 && db.replica[0] == 1, "log-store-import-called-once")
+		ss := db.imported[0]
+		vAssert(ss.Imported && ss.Index == 100 && len(ss.Membership.Addresses) == 1 && ss.Membership.Addresses[1] == "a1", "imported-record-membership")
+		vAssert(ss.Membership.Removed[2] && ss.Membership.Removed[3] && ss.Membership.Removed[4], "imported-record-removed")
+		_, serr := fs.Stat(ss.Filepath)
+		vAssert(serr == nil, "imported-file-in-place")
+	} else {
+		vReach("refused")
+		vAssert(err != nil, "invalid-import-refused")
+		vAssert(len(db.imported) == 0, "refused-import-never-reaches-the-log-store")
+		if haveExisting {
+			vReach("existing-kept")
+			after := vTree(fs, "/nh")
+			vAssert(len(after) == len(before), "refused-import-leaves-existing-data-untouched")
+			if len(after) == len(before) {
+				for i := range after {
+					vAssert(after[i] == before[i], "refused-import-leaves-existing-data-untouched")
+				}
+			}
+		}
+	}
+	vReach("done")
+}
+
+// vTree lists every file and directory below root (sorted walk) with sizes.
+func vTree(fs vfs.IFS, root string) []string {
+	var out []string
+	names, err := fs.List(root)
+	if err != nil {
+		return out
+	}
+	// insertion sort: List order is not specified
+	for i := 1; i < len(names); i++ {
+		for j := i; j > 0 && names[j] < names[j-1]; j-- {
+			names[j], names[j-1] = names[j-1], names[j]
+		}
+	}
+	for _, n := range names {
+		p := fs.PathJoin(root, n)
+		st, err := fs.Stat(p)
+		if err != nil {
+			continue
+		}
+		if st.IsDir() {
+			out = append(out, p+"/")
+			out = append(out, vTree(fs, p)...)
+		} else {
+			out = append(out, p+":"+string(rune('0'+st.Size()%10))+string(rune('0'+(st.Size()/10)%10)))
+		}
+	}
+	return out
+}
+
+func vCorruptRecord(fs vfs.IFS, dir string) {
+	var ss pb.Snapshot
+	if err := fileutil.GetFlagFileContent(dir, server.MetadataFilename, &ss, fs); err != nil {
+		panic(err)
+	}
+	ss.Checksum = append([]byte(nil), ss.Checksum...)
+	ss.Checksum[0] ^= 0x40
+	if err := fs.Remove(fs.PathJoin(dir, server.MetadataFilename)); err != nil {
+		panic(err)
+	}
+	if err := fileutil.CreateFlagFile(dir, server.MetadataFilename, &ss, fs); err != nil {
+		panic(err)
+	}
 }
